@@ -129,6 +129,13 @@ func Class(label string) {
 	mu.Unlock()
 }
 
+// ClassN adds n cases to a histogram bucket.
+func ClassN(label string, n int) {
+	mu.Lock()
+	classes[label] += int64(n)
+	mu.Unlock()
+}
+
 // Hash folds its arguments into a 64-bit FNV-1a hash.
 func Hash(parts ...interface{}) uint64 {
 	h := fnv.New64a()
